@@ -34,7 +34,7 @@ CHECKS = {
     level="exploration",
     technique="differential testing of the real binary against itself: N fresh processes (fresh map-iteration orders) x environment and working-directory variants on hand-built multi-defect documents and rapid-generated configurations; metamorphic key permutations of every YAML mapping",
     text="Byte-identity of stdout and of the generated file across repeated executions and neutral perturbations, and of the generated file across key permutations; inputs are built so that every order-sensitive map holds at least two entries and every defect class is present at least twice.",
-    note="Probabilistic for map-order dependence: a 2-entry site escapes N runs with probability 2^-(N-1) (0.2% quick with 10 runs, 1e-7 thorough with 24); stdout is not claimed under key permutations.",
+    note="Probabilistic for map-order dependence: a 2-entry site shows its rarer order in 1 iteration of 8 (Go starts small maps at a random slot), so it escapes n repetitions with probability (7/8)^n: 10 fresh processes + 48 in-process repetitions per document in the quick tier (0.05%), 24 + 48 in the thorough tier (0.007%); stdout is not claimed under key permutations.",
     ref="DESIGN.md §4 C08"),
  "C09": dict(
     level="exploration",
